@@ -169,7 +169,7 @@ def r2(ctx, R):
         tags = _pid_tags(w)
         handled = _pid_handled(r)
         R.slot(pk, {"written": sorted({(t, l) for t, l, _ in tags}), "handled": {k: sorted(map(str, v)) for k, v in handled.items()}})
-        R.need(tags, "%s.persistent_id returns no tagged tuples" % pk)
+        R.must(tags, "%s.persistent_id returns no tagged tuples" % pk)
         for tag, ln, node in tags:
             R.inst("%s tag %r/%d handled by %s" % (pk, tag, ln, up))
             if tag not in handled:
